@@ -45,18 +45,12 @@ impl<T: Elem> SimdIterable for [T] {
 pub struct Iter<'a, T: Elem, O: NumOps<T>> {
     ops: O,
     xs: &'a [T],
-    n_full_chunks: usize,
 }
 
 impl<'a, T: Elem, O: NumOps<T>> Iter<'a, T, O> {
     #[inline]
     fn new(ops: O, xs: &'a [T]) -> Self {
-        let n_full_chunks = xs.len() / ops.len();
-        Iter {
-            ops,
-            xs,
-            n_full_chunks,
-        }
+        Iter { ops, xs }
     }
 
     /// Reduce an iterator to a single SIMD vector.
@@ -205,7 +199,9 @@ impl<T: Elem, O: NumOps<T>> Iterator for Iter<'_, T, O> {
 
     #[inline]
     fn size_hint(&self) -> (usize, Option<usize>) {
-        (self.n_full_chunks, Some(self.n_full_chunks))
+        // Number of full chunks *remaining*, as required by `ExactSizeIterator`.
+        let remaining = self.xs.len() / self.ops.len();
+        (remaining, Some(remaining))
     }
 }
 
